@@ -176,6 +176,21 @@ func genStructural(rt *rapid.T, typ uint, base *xcbor.Node) (family, reg, desc s
 			l.Width = 0
 		}
 	}
+	if rapid.IntRange(0, 7).Draw(rt, "arity") == 0 {
+		// arity edits of the block / body arrays
+		target, name := t, "block"
+		if (lay == layByron || lay == layDijkstra) && len(t.Items) > 1 && t.Items[1].Kind == xcbor.Array && rapid.Bool().Draw(rt, "arityBody") {
+			target, name = t.Items[1], "body"
+		}
+		if rapid.Bool().Draw(rt, "arityAdd") || len(target.Items) < 2 {
+			target.Items = append(target.Items, xcbor.A())
+			fix(target)
+			return "arity", name + "-array", "element appended to the " + name + " array", t
+		}
+		target.Items = target.Items[:len(target.Items)-1]
+		fix(target)
+		return "arity", name + "-array", "last element of the " + name + " array dropped", t
+	}
 	switch lay {
 	case layShelley:
 		kinds := []string{"bodies-only", "witnesses-only", "both", "aux", "body-field"}
@@ -471,6 +486,19 @@ func TestC34(t *testing.T) {
 			map[string]any{"base": b.Name, "type": b.Type, "family": m.Family, "region": m.Region, "mutation": m.Desc, "block_hex": evi.Hex(m.Bytes), "block_len": len(m.Bytes)})
 	}
 
+	// ---- header of one real block on the body of another real block of the same type ----
+	for _, a := range bases {
+		for _, b := range bases {
+			if a == b || a.Type != b.Type {
+				continue
+			}
+			tr := b.Tree.Clone()
+			tr.Items[0] = a.Tree.Items[0].Clone()
+			judge(func(key, what string, cs any) bool { return rec.Violation(key, what, cs) }, b,
+				mutation{"transplant", "whole-body", "header of real block " + a.Name + " on the body of " + b.Name, tr.Encode()})
+		}
+	}
+
 	// ---- exhaustive single-byte sweep over the small real blocks ----------------------
 	limit := rec.Pick(2000, 9000)
 	masks := []byte{0x01, 0x80}
@@ -544,7 +572,10 @@ func TestC34(t *testing.T) {
 			mk := byte(rapid.IntRange(1, 255).Draw(rt, "mask"))
 			mb := append([]byte(nil), b.Bytes...)
 			mb[p] ^= mk
-			judge(fail, b, mutation{"byte-flip", reg, fmt.Sprintf("byte %d ^= %#02x", p, mk), mb})
+			if rapid.IntRange(0, 19).Draw(rt, "alsoTrailing") == 0 {
+				mb = append(mb, genBytes(rt, 1, 4, "trailing")...)
+			}
+			judge(fail, b, mutation{"byte-flip", reg, fmt.Sprintf("byte %d ^= %#02x (block now %d bytes)", p, mk, len(mb)), mb})
 		case 4, 5, 6: // head form of a node in a drawn region
 			reg := b.Names[rapid.IntRange(0, len(b.Names)-1).Draw(rt, "region")]
 			d, tree := restyleIn(rt, b.Tree, b.Regs, reg)
